@@ -18,6 +18,7 @@ from ..sim import World, MS, HarnessError, Abort, GhostShot
 PID = "C16"
 DIRECT = D.DEFAULT_ADDR
 VIAS = (DIRECT, 0o1, 0o5, 0o15, 0o123)
+SPLIT_VIAS = (DIRECT, 0o1)
 CORNER_VIAS = (0o444, 0o1)  # 0o444: the only parent whose child slot 4 is the unassigned address 0o4444
 IDS5 = (1, 2, 3, 4, 255)
 UNLEASED = 0o33  # never handed out by any request of the alphabet
@@ -56,14 +57,22 @@ def mk_master(table):
     g = H.mk_ghost_tx(w)
     w.advance(1 * MS)
     w.log_air = True
-    return [w, m, r, g, 0]
+    return [w, m, r, g, 0, {}]  # (.., step counter, {format: bytes of the file saved last})
 
 
 def via_name(via):
     return "direct" if via == DIRECT else "relay-L%d" % R.level(via)
 
 
-def alphabet(table, ids, vias=VIAS):
+def alphabet(table, ids, vias=VIAS, mode="main", files=()):
+    if mode == "split":
+        # save_dhcp() and load_dhcp() as separate events: the file written earlier is loaded into the *running* master
+        # after its table has changed (requests / releases in between)
+        ev = [("req", i, v) for i in ids for v in vias]
+        ev += [("rel", a) for a in sorted({a for _, a in table})]
+        ev += [("sv", fmt) for fmt in ("json", "bin")]
+        ev += [("ld", fmt) for fmt in ("json", "bin") if fmt in files]
+        return ev
     ev = [("req", i, v) for i in ids for v in vias]
     # the same request with an unrelated frame arriving during the master's NETWORK_ACK wait
     # (only replies routed over more than one hop are waited for: relays of level >= 2)
@@ -100,7 +109,7 @@ def table_of(m):
 
 def apply_event(st, ev, tmpdir, judge=True, history=None):
     """apply one event to the state (in place); -> (violations [(sig, what)], outcome key)"""
-    w, m, r, g, step = st
+    w, m, r, g, step = st[:5]
     w.activate()
     st[4] = step = step + 1
     viol = []
@@ -228,6 +237,43 @@ def apply_event(st, ev, tmpdir, judge=True, history=None):
         if any(p.src is r and not p.is_ack for p in w.airlog):
             v("release:transmits", "master transmitted in reaction to a release")
         out = "%s:%s" % (kind, "freed" if was else "not-leased-noop")
+    elif kind in ("sv", "ld"):
+        fmt = ev[1]
+        path = os.path.join(tmpdir, "dhcp-split.%s" % fmt)
+        try:
+            if kind == "sv":
+                m.save_dhcp(path, as_bin=(fmt == "bin"))
+                with open(path, "rb") as fh:
+                    st[5][fmt] = fh.read()
+                saved = None
+            else:
+                with open(path, "wb") as fh:
+                    fh.write(st[5][fmt])
+                saved = D.parse_file(st[5][fmt], fmt)
+                m.load_dhcp(path, as_bin=(fmt == "bin"))
+        except (HarnessError, Abort):
+            raise
+        except Exception as e:  # noqa
+            v("raises-%s:persistence:%s" % (type(e).__name__, fmt), "%s raised %r for table %s" % ("save_dhcp()" if kind == "sv" else "load_dhcp()", e, fmt_table(before)))
+            return viol, kind + ":raised"
+        if not judge:
+            return viol, None
+        after = table_of(m)
+        if kind == "sv":
+            if sorted(after) != sorted(before):
+                v("persistence:%s:save-changes-table" % fmt, "save_dhcp(): table %s -> %s" % (fmt_table(before), fmt_table(after)))
+            got = D.parse_file(st[5][fmt], fmt)
+            if got is None or sorted(got) != sorted(before):
+                v("persistence:%s:file-content" % fmt, "save_dhcp() of %s wrote a file that reads as %s" % (fmt_table(before), "garbage" if got is None else fmt_table(got)))
+            out = "sv:%s:%s" % (fmt, "empty" if not before else "entries")
+        else:
+            if saved is None:
+                raise HarnessError("saved file not parseable (should have been reported at the save event)")
+            missing = [(k, a) for k, a in saved if dict(after).get(k) != a]
+            if missing:
+                v("persistence:%s:loaded-entry-missing" % fmt, "load_dhcp() of a file holding %s into %s gives %s" % (fmt_table(saved), fmt_table(before), fmt_table(after)))
+            out = "ld:%s:%s" % (fmt, "into-same-table" if sorted(saved) == sorted(before) else
+                                ("into-table-with-address-conflict" if any(a in dict(saved).values() and dict(saved).get(k) != a for k, a in before) else "into-changed-table"))
     else:
         _, fmt, target = ev
         path = os.path.join(tmpdir, "dhcp.%s" % fmt)
@@ -291,12 +337,13 @@ def hidden(m):
     return tuple(sorted((k, v) for k, v in vars(m).items() if isinstance(v, (bool, int)) or v is None))
 
 
-def state_key(m):
-    return (tuple(sorted(table_of(m))), hidden(m))
+def state_key(st):
+    m = st[1]
+    return (tuple(sorted(table_of(m))), hidden(m), tuple(sorted(st[5].items())))
 
 
 def w_expand(item, rep):
-    start, hists, ids, collect, tag, vias = item
+    start, hists, ids, collect, tag, vias, mode = item
     tmpdir = tempfile.mkdtemp(prefix="vf_c16_", dir="/tmp")
     succ = []
     try:
@@ -306,7 +353,7 @@ def w_expand(item, rep):
             for i, ev in enumerate(hist):
                 apply_event(st, ev, tmpdir, judge=False)
             table = table_of(st[1])
-            for ev in alphabet(table, ids, vias):
+            for ev in alphabet(table, ids, vias, mode, st[5]):
                 st2 = copy.deepcopy(st)
                 viol, out = apply_event(st2, ev, tmpdir, judge=True, history=hist)
                 rep.case()
@@ -315,7 +362,7 @@ def w_expand(item, rep):
                 rep.outcome(out)
                 for sig, what in viol:
                     rep.violation(sig, what, {"part": "bfs", "start": start, "history": list(hist) + [ev]})
-                key = state_key(st2[1])
+                key = state_key(st2)
                 if collect == "full":
                     succ.append((key, tuple(hist) + (ev,)))
                 else:
@@ -326,18 +373,18 @@ def w_expand(item, rep):
     rep.part("bfs:" + start, transitions=len(succ))
 
 
-def bfs_parallel(start, ids, depth, rep, max_states, vias=VIAS):
+def bfs_parallel(start, ids, depth, rep, max_states, vias=VIAS, mode="main"):
     """level-synchronous E-BFS with global dedup on the lease table (sorted id->address map).
     A frontier state is identified by the shortest, lexicographically first history reaching it
     and is rebuilt by re-executing that history on a fresh master."""
-    seen = {state_key(mk_master(STARTS[start])[1])}
+    seen = {state_key(mk_master(STARTS[start]))}
     frontier = [()]
     rep.states += 1
     done = 0
     for d in range(1, depth + 1):
         last = d == depth
         step = max(1, min(40, len(frontier) // 28 + 1))
-        items = [(start, frontier[i:i + step], ids, "hash" if last else "full", "%d.%d" % (d, i), vias) for i in range(0, len(frontier), step)]
+        items = [(start, frontier[i:i + step], ids, "hash" if last else "full", "%d.%d" % (d, i), vias, mode) for i in range(0, len(frontier), step)]
         pmap(w_expand, items, rep)
         keys = [k for k in rep.notes if k.startswith("S|%s|" % start)]
         if last:
@@ -458,6 +505,13 @@ def run(tier, seed, rep, only=None):
             continue
         d, n = bfs_parallel(start, ids_, depth_, rep, cap, vias)
         done["%s/ids=%s" % (start, ",".join(map(str, ids_)))] = dict(depth_completed=d, depth_bound=depth_, states_before_last_level=n, vias=[oct(x) for x in vias])
+    # save and load as separate events (the file is loaded into the running master after its table changed)
+    for start, depth_ in (("empty", 7 if tier == "quick" else 9), ("one-slot-free", 6 if tier == "quick" else 8), ("level1-full", 6 if tier == "quick" else 8)):
+        if only and "split" not in only:
+            continue
+        d, n = bfs_parallel(start, (1, 2), depth_, rep, cap, SPLIT_VIAS, "split")
+        done["split:%s/ids=1,2" % start] = dict(depth_completed=d, depth_bound=depth_, states_before_last_level=n, vias=[oct(x) for x in SPLIT_VIAS],
+                                                events="req, rel (frame), save_dhcp(json|bin), load_dhcp(json|bin) of the file saved last")
     if not only or "persist" in only:
         pmap(w_persist, [(list(range(lo, min(lo + 8, 256))), seed) for lo in range(0, 256, 8)], rep)
     for k, vv in sorted(rep.outcomes.items()):
